@@ -129,6 +129,15 @@ JOBS = [
     Job('Geoid.height.ranges', 'Geoid::height', ['C20'], timeout=14000, unwind=13, sat='cadical', harness='history', enforce=False, tier='thorough', defines=['GEOID_RANGE_LEMMAS'],
         replace=[('Geoid::rawval', dict(may_throw=True)), ('Math::AngNormalize', dict(ghost=False)), 'Math::LatFix'],
         description='lemma: cell indices inside the grid and interpolation weights in [0,1] (floating-point range reasoning with symbolic grid size)'),
+    # ---- thread safety: const methods that write (C14)
+    Job('AuxLatitude.fillcoeff', 'AuxLatitude::fillcoeff', ['C14', 'C13'], unwind=8, timeout=900,
+        description='series coefficient cache fill (const method writing a mutable member); coefficient table addressing'),
+    # ---- harmonic coefficient addressing (C19) / malformed coefficient files (C13)
+    Job('coeff.Csize', 'coeff::Csize', ['C19', 'C13', 'C14'], sat='cadical', timeout=600, description='number of cosine coefficients for the degree/order read from a file header'),
+    Job('coeff.index', 'coeff::index', ['C19', 'C13', 'C14'], sat='cadical', timeout=900, description='slot of the coefficient of degree n, order m in the packed triangular storage'),
+    Job('coeff.index.lemmas', None, ['C19'], lean='lemmas/CoeffIndex.lean', timeout=1800,
+        description='Lean lemmas: the slot lies inside a vector of Csize(N, M) entries; the slot function is injective (over the integers; cbmc shows index == slot without overflow)'),
+    Job('coeff.Ssize', 'coeff::Ssize', ['C19', 'C13', 'C14'], inline=['coeff::Csize'], sat='cadical', timeout=600, description='number of sine coefficients'),
 ]
 
 
@@ -149,10 +158,21 @@ NOT_APPLICABLE = {
     'C02': NUMERIC, 'C03': NUMERIC, 'C06': NUMERIC, 'C11': NUMERIC, 'C15': NUMERIC,
     'C17': NUMERIC + '; NearestNeighbor is a C++ template over user types that neither the C extraction nor the CBMC C++ front end can take',
  'C07': NOT_BUILT,  'C09': NOT_BUILT,
-      'C19': NOT_BUILT, 
+       
 }
 
 PROPS = {
+    'C19': dict(
+        level='other',
+        level_text='Only the coefficient ADDRESSING of the harmonic sums is decided, by proof: the slot function of the packed triangular storage is the documented '
+                   'layout, injective, and inside the vector sizes Csize/Ssize for every truncation; Csize/Ssize equal the mathematical counts without overflow '
+                   'outside the pattern of finding F4. That the Clenshaw recurrences equal the defining series is numeric and not decided.',
+        level_note='Trusted: as C18. Not decided: SphericalEngine::Value / Circle (templates with long floating-point recurrences), gradients, gravity / magnetic model assembly, NormalGravity.',
+        design_ref='DESIGN.md section 5, C19',
+        explanation='Contract-based proof of the storage addressing only (three functions); the numeric core of C19 (sums equal the defining series, gradient is the derivative, '
+                    'circle evaluation agrees) cannot be expressed as a contract that cbmc can discharge: see DESIGN.md sections 1 and 6.',
+        not_decided=['harmonic sum and gradient equal the defining series', 'CircularEngine agrees with direct evaluation', 'gravity / magnetic models reproduce the file coefficients', 'NormalGravity identities'],
+    ),
     'C20': dict(
         level='proof',
         level_text='Geoid::height for every position and every header satisfying the constructor checks: all raster indices passed to the reader are inside the '
